@@ -118,6 +118,7 @@ proof fn lemma_be64_roundtrip(v: int)
 }
 pub open spec fn zeros(n: int) -> Seq<u8> { Seq::new(n as nat, |i: int| 0u8) }
 //@include inc/attrs_types.rs
+//@include inc/attrs_addr.rs
 //@include inc/attrs_gen.rs
 //@include inc/attrs_turn.rs
 //@include inc/attrs_stun.rs
